@@ -1,13 +1,17 @@
 import RoaringModel.Lemmas.MiscStats
+import RoaringModel.Lemmas.BStoreBasic
+import RoaringModel.Lemmas.Dir
 /-!
 # C20 — `statistics()` describes the set and the Roaring space rule (property theorems)
 
 `Spec.stats s` (SpecLsb0.lean) is what the property says about a set `s`, computed from the sorted element
 list alone: group by `x / 65536`; a prefix with ≤ 4096 values is an array container (with its values), any
 other a bitset container; no run containers; `serialized_size = 8 + Σ (8 + min(2·card, 8192))`.
-The theorems are about well-formed bitmaps (`BitmapWF`, the invariant of every value produced by the
-public API — C01/C02/C04 producer theorems); that the statement FAILS for non-well-formed values is
-exactly how D2/D3 were visible.
+The theorems are about well-formed bitmaps (the shared `Bitmap.WF` of Inv.lean, the invariant of every value
+produced by the public API — C01/C02/C04 producer theorems); that the statement FAILS for non-well-formed
+values is exactly how D2/D3 were visible.  Everything is unconditional: `C20` is the whole statement,
+`C20_counts` / `C20_serialized_size` / `C20_minmax` its parts, `C20_groups` pins down `Spec.groups`
+(one group per distinct 16-bit prefix, ascending, with the number of elements under that prefix).
 -/
 namespace Roaring.C20
 open Roaring Roaring.MiscLemmas
@@ -20,7 +24,7 @@ theorem C20_no_runs (b : Bitmap) : (Bitmap.statistics b).nRun = 0 ∧ (Bitmap.st
     `n_containers` = number of distinct 16-bit prefixes, prefixes with ≤ 4096 values are the array
     containers (counted with their values), all others are bitset containers, no run containers,
     `cardinality = len()`. -/
-theorem C20_counts (b : Bitmap) (h : BitmapWF b) :
+theorem C20_counts (b : Bitmap) (hwf : Bitmap.WF b) :
     (Bitmap.statistics b).nContainers = (Spec.stats (Bitmap.elems b)).nContainers ∧
     (Bitmap.statistics b).nArray = (Spec.stats (Bitmap.elems b)).nArray ∧
     (Bitmap.statistics b).nBitset = (Spec.stats (Bitmap.elems b)).nBitset ∧
@@ -28,6 +32,7 @@ theorem C20_counts (b : Bitmap) (h : BitmapWF b) :
     (Bitmap.statistics b).valuesBitset = (Spec.stats (Bitmap.elems b)).valuesBitset ∧
     (Bitmap.statistics b).cardinality = (Spec.stats (Bitmap.elems b)).cardinality ∧
     (Bitmap.statistics b).cardinality = Bitmap.len b := by
+  have h := (bitmapWF_iff b).2 hwf
   have hc := cards_eq b h
   have ha := filter_arr b h
   have hb := filter_bm b h
@@ -47,8 +52,9 @@ theorem C20_counts (b : Bitmap) (h : BitmapWF b) :
   · exact congrArg (fun l => Spec.sum (List.map Container.len l)) hb
 
 /-- `serialized_size() = 8 + Σ over prefixes (8 + min(2·cardinality, 8192))` — the Roaring space bound. -/
-theorem C20_serialized_size (b : Bitmap) (h : BitmapWF b) :
+theorem C20_serialized_size (b : Bitmap) (hwf : Bitmap.WF b) :
     Bitmap.serializedSize b = (Spec.stats (Bitmap.elems b)).serializedSize := by
+  have h := (bitmapWF_iff b).2 hwf
   simp only [Bitmap.serializedSize, Spec.stats, cards_eq b h, List.map_map]
   rw [foldl_add]
   congr 1
@@ -61,12 +67,27 @@ theorem C20_serialized_size (b : Bitmap) (h : BitmapWF b) :
   | array v => rw [hs] at hw; have := hw.2.2.2; simp [Container.len, hs, Store.len]; omega
   | bitmap bs => rw [hs] at hw; have := hw.2.2.2; simp [Container.len, hs, Store.len]; omega
 
+/-- What the SPEC's grouping means on the element list `s` of a well-formed bitmap: the group keys are strictly
+    ascending (so pairwise distinct), each group `(k, n)` has `n > 0` = the number of elements of `s` with
+    `x / 65536 = k`, and every element's prefix is a group key.  Hence `(Spec.stats s).nContainers` is the
+    number of distinct 16-bit prefixes, and the `≤ 4096` / `> 4096` split and the size formula in `Spec.stats`
+    are about the number of values under each prefix. -/
+theorem C20_groups (b : Bitmap) (hwf : Bitmap.WF b) :
+    ((Spec.groups (Bitmap.elems b)).map (·.1)).Pairwise (· < ·) ∧
+    (∀ k n, (k, n) ∈ Spec.groups (Bitmap.elems b) →
+      0 < n ∧ n = ((Bitmap.elems b).filter (fun x => x / 65536 = k)).length) ∧
+    (∀ x ∈ Bitmap.elems b, ∃ n, (x / 65536, n) ∈ Spec.groups (Bitmap.elems b)) ∧
+    Spec.groups (Bitmap.elems b) = b.map (fun c => (c.key, c.len)) :=
+  let h := groups_spec (Bitmap.elems b) (Bitmap.sorted_elems b hwf.dir)
+  ⟨h.1, h.2.1, h.2.2, groups_elems b ((bitmapWF_iff b).2 hwf)⟩
+
 /-- a bitset store with 65 full words (4160 values) -/
 def exBitset : BStore := ⟨4160, List.replicate 65 wMax ++ List.replicate 959 0⟩
 
 /-- Non-vacuity of `C20_counts` / `C20_serialized_size`: a two-chunk bitmap with one array chunk (3 values
     under prefix 0) and one bitset chunk (4160 values under prefix 3) is well-formed. -/
-example : BitmapWF [⟨0, .array [1, 2, 70]⟩, ⟨3, .bitmap exBitset⟩] := by
+example : Bitmap.WF [⟨0, .array [1, 2, 70]⟩, ⟨3, .bitmap exBitset⟩] := by
+  rw [← bitmapWF_iff]
   refine ⟨by decide, ?_⟩
   intro c hc
   simp at hc
@@ -74,11 +95,10 @@ example : BitmapWF [⟨0, .array [1, 2, 70]⟩, ⟨3, .bitmap exBitset⟩] := by
   · simp [StoreWF]
   · exact ⟨by decide, by decide +kernel, by decide +kernel, by decide +kernel, by decide +kernel⟩
 
-/-- `min_value` / `max_value` are `min()` / `max()` of the set.  Proved from the per-store kernel fact
-    `BStoreMinMax` for the bitset stores of `b` (nothing is assumed for array stores); missing for the
-    full statement: that kernel fact (first non-zero word + `trailing_zeros`, last non-zero word +
-    `leading_zeros`), which belongs to the C07 lemma family. -/
-theorem C20_minmax_partial (b : Bitmap) (h : BitmapWF b)
+/-- `min_value` / `max_value` are `min()` / `max()` of the set, from the per-store kernel fact
+    `BStoreMinMax` for the bitset stores of `b` (first non-zero word + `trailing_zeros`, last non-zero word +
+    `leading_zeros`); the kernel fact is discharged in `C20_minmax` below. -/
+theorem C20_minmax_local (b : Bitmap) (h : BitmapWF b)
     (hK : ∀ c ∈ b, ∀ bs, c.store = .bitmap bs → BStoreMinMax bs) :
     (Bitmap.statistics b).minValue = (Spec.stats (Bitmap.elems b)).minValue ∧
     (Bitmap.statistics b).maxValue = (Spec.stats (Bitmap.elems b)).maxValue := by
@@ -115,14 +135,46 @@ theorem C20_minmax_partial (b : Bitmap) (h : BitmapWF b)
         | none => exact absurd (List.getLast?_eq_none_iff.1 hl) hne
         | some v => rfl
 
+theorem C20_minmax_of_kernel (b : Bitmap) (hwf : Bitmap.WF b)
+    (hK : ∀ c ∈ b, ∀ bs, c.store = .bitmap bs → BStoreMinMax bs) :
+    (Bitmap.statistics b).minValue = (Spec.stats (Bitmap.elems b)).minValue ∧
+    (Bitmap.statistics b).maxValue = (Spec.stats (Bitmap.elems b)).maxValue :=
+  C20_minmax_local b ((bitmapWF_iff b).2 hwf) hK
+
+/-- **`min_value` / `max_value` are the smallest / largest element of the set** (unconditional: the per-store
+    kernel is `BStore.min?_spec` / `BStore.max?_spec` of the shared library). -/
+theorem C20_minmax (b : Bitmap) (hwf : Bitmap.WF b) :
+    (Bitmap.statistics b).minValue = (Spec.stats (Bitmap.elems b)).minValue ∧
+    (Bitmap.statistics b).maxValue = (Spec.stats (Bitmap.elems b)).maxValue := by
+  refine C20_minmax_of_kernel b hwf ?_
+  intro c hc bs hs
+  have hst := (hwf.2 c hc).2
+  rw [hs] at hst
+  exact ⟨BStore.min?_spec bs hst.1, BStore.max?_spec bs hst.1⟩
+
+/-- **C20**, the whole statement: every field of `statistics()` and `serialized_size()` is the value the SPEC
+    computes from the element set alone (`Spec.stats`: group the elements by 16-bit prefix; a prefix with
+    ≤ 4096 values is an array container, any other a bitset container; no run containers;
+    `serialized_size = 8 + Σ (8 + min(2·card, 8192))`; min / max / cardinality of the set). -/
+theorem C20 (b : Bitmap) (hwf : Bitmap.WF b) :
+    let st := Bitmap.statistics b
+    let sp := Spec.stats (Bitmap.elems b)
+    st.nContainers = sp.nContainers ∧ st.nArray = sp.nArray ∧ st.nBitset = sp.nBitset ∧ st.nRun = 0 ∧
+    st.valuesArray = sp.valuesArray ∧ st.valuesBitset = sp.valuesBitset ∧ st.valuesRun = 0 ∧
+    st.cardinality = sp.cardinality ∧ st.minValue = sp.minValue ∧ st.maxValue = sp.maxValue ∧
+    Bitmap.serializedSize b = sp.serializedSize := by
+  obtain ⟨c1, c2, c3, c4, c5, c6, _⟩ := C20_counts b hwf
+  obtain ⟨m1, m2⟩ := C20_minmax b hwf
+  exact ⟨c1, c2, c3, rfl, c4, c5, rfl, c6, m1, m2, C20_serialized_size b hwf⟩
+
 /-- Non-vacuity: a two-chunk bitmap (an array chunk with 3 values under prefix 0 and one with 2 values
     under prefix 3) is well-formed, has no bitset store (so `hK` holds vacuously for it), and the
     statistics/space-rule values are the expected ones. -/
 example :
     let b : Bitmap := [⟨0, .array [1, 2, 70]⟩, ⟨3, .array [0, 65535]⟩]
-    BitmapWF b ∧ (∀ c ∈ b, ∀ bs, c.store = .bitmap bs → BStoreMinMax bs) ∧
+    Bitmap.WF b ∧ (∀ c ∈ b, ∀ bs, c.store = .bitmap bs → BStoreMinMax bs) ∧
       Spec.stats (Bitmap.elems b) = ⟨2, 2, 0, 5, 0, 5, some 1, some 262143, 34⟩ := by
-  refine ⟨⟨by decide, ?_⟩, ?_, by decide⟩
+  refine ⟨(bitmapWF_iff _).1 ⟨by decide, ?_⟩, ?_, by decide⟩
   · intro c hc
     simp at hc
     rcases hc with rfl | rfl <;> simp [StoreWF]
